@@ -1,4 +1,5 @@
 import RaftModel.Driver.Inflights
+import RaftModel.Driver.Proto
 
 /-
 `rvm` — the model side of the correspondence check.
@@ -12,6 +13,7 @@ open RaftModel RaftModel.Driver
 
 structure DState where
   inf : Option Inflights := none
+  p : Option RaftModel.P.PSys := none
   lines : Nat := 0
   compared : Nat := 0
   mismatches : Nat := 0
@@ -30,12 +32,14 @@ def tokens (s : String) : List String :=
 def dispatch (st : DState) (comp : String) (cmd : List String) : DState × String :=
   match comp with
   | "inf" => let (s, o) := handleInf st.inf cmd; ({ st with inf := s }, o)
+  | "p" => let (s, o) := handleP st.p cmd; ({ st with p := s }, o)
   | _ => (st, "bad-op")
 
 /-- after a disagreement the component's sequence is abandoned until its next `new` -/
 def abandon (st : DState) (comp : String) : DState :=
   match comp with
   | "inf" => { st with inf := none }
+  | "p" => { st with p := none }
   | _ => st
 
 def stepLine (st : DState) (line : String) : DState × Option String :=
